@@ -443,3 +443,209 @@ Theorem C16_exp_series_terminates_lt_1 : forall (eps : Q) (thr : Q -> Q), (0 < e
   exp_series thr fuel no_scaling r <> None.
 Proof. exact exp_series_terminates_lt_1. Qed.
 Print Assumptions C16_exp_series_terminates_lt_1.
+
+(** * Round 3.  (a) Text parsers never panic: the index-level models (Cross/ParseIdx.v) take every `&name[a..b]` of
+    float/src/parse.rs and rational/src/parse.rs through str_range (a panic value unless both indices are in range and char
+    boundaries); on EVERY well-formed UTF-8 byte string (Cross/Utf8.v: structure of UTF-8 only, a superset of Rust's &str) every
+    slice is legal, for every base; the characters rfind looks for and the list of slice expressions are regenerated from the
+    sources on every run (coq/gen/ParseSites.v). *)
+From Dashu Require Float.TextIoSpec Float.TextIoModel Float.ParseProof Float.ParseSound.
+From Dashu Require Import Cross.Utf8 Cross.ParseIdx Cross.ParseIdxProofs.
+From DashuGen Require ParseSites.
+
+Theorem C16_scale_markers_ascii : forall B has_prefix c, ParseSites.gen_marker B has_prefix c = true -> is_ascii c = true.
+Proof. exact gen_marker_ascii. Qed.
+Print Assumptions C16_scale_markers_ascii.
+
+Theorem C16_scale_markers_are_grammar : forall B has_prefix c, ParseSites.gen_marker B has_prefix c = TextIoSpec.is_marker B has_prefix c.
+Proof. exact gen_marker_is_marker. Qed.
+Print Assumptions C16_scale_markers_are_grammar.
+
+
+(** the index of an ASCII byte and the index behind it are char boundaries of a well-formed string *)
+Theorem C16_ascii_index_boundaries : forall a c b, is_ascii c = true -> utf8 (a ++ c :: b) ->
+  boundary (a ++ c :: b) (length a) = true /\ boundary (a ++ c :: b) (S (length a)) = true /\
+  str_range (a ++ c :: b) 0 (length a) = Ok a /\ str_range (a ++ c :: b) (S (length a)) (length (a ++ c :: b)) = Ok b /\
+  utf8 a /\ utf8 b.
+Proof.
+  intros a c b Hc Hu. destruct (utf8_split_ascii c Hc a 0%nat b Hu) as [Ha Hb].
+  repeat split; [apply boundary_at_ascii | apply boundary_after_ascii | apply str_range_prefix | apply str_range_suffix | |]; assumption.
+Qed.
+Print Assumptions C16_ascii_index_boundaries.
+
+(** float parser: the index-level model equals the C08 model on every well-formed text, for every base *)
+Theorem C16_float_parse_slices_legal : forall B s, utf8 s -> parse_idx B s = TextIoModel.parse_asis B s.
+Proof. exact parse_idx_eq. Qed.
+Print Assumptions C16_float_parse_slices_legal.
+
+Theorem C16_float_parse_never_panics : forall B s, utf8 s ->
+  match parse_idx B s with Ok _ | Err _ => True | _ => False end.
+Proof. exact parse_idx_no_panic. Qed.
+Print Assumptions C16_float_parse_never_panics.
+
+(** ... hence (C08 parse_iff) it accepts exactly the documented grammar *)
+Theorem C16_float_parse_grammar : forall B s v, IoSpec.radix_valid B = true -> utf8 s ->
+  (parse_idx B s = Ok v <-> TextIoSpec.parse_spec B s = Some v).
+Proof.
+  intros B s v HB Hu. rewrite (parse_idx_eq B s Hu). split.
+  - apply ParseSound.parse_asis_sound. exact HB.
+  - apply ParseProof.parse_asis_complete. exact HB.
+Qed.
+Print Assumptions C16_float_parse_grammar.
+
+(** rational parsers *)
+Theorem C16_ratio_parse_never_panics : forall radix s, utf8 s ->
+  match ratio_radix_idx radix s with Ok _ | Err _ => True | _ => False end.
+Proof. exact ratio_radix_idx_no_panic. Qed.
+Print Assumptions C16_ratio_parse_never_panics.
+
+Theorem C16_ratio_prefix_parse_never_panics : forall s, utf8 s ->
+  match ratio_prefix_idx s with Ok _ | Err _ => True | _ => False end.
+Proof. exact ratio_prefix_idx_no_panic. Qed.
+Print Assumptions C16_ratio_prefix_parse_never_panics.
+
+Theorem C16_ratio_parse_denominator_positive : forall radix s n d, ratio_radix_idx radix s = Ok (n, d) -> 0 < d.
+Proof. exact ratio_radix_idx_den_pos. Qed.
+Print Assumptions C16_ratio_parse_denominator_positive.
+
+(** integer parser: Ok or Err on every byte string whatever the radix (the as-is parser equals this specification for every
+    word size: C16_from_str_radix_total above) *)
+Theorem C16_int_parse_never_panics : forall sg r s,
+  match IoSpec.from_str_radix_spec sg r s with Ok _ | Err _ => True | _ => False end.
+Proof. exact from_str_radix_spec_np. Qed.
+Print Assumptions C16_int_parse_never_panics.
+
+Theorem C16_int_prefix_parse_never_panics : forall sg d s,
+  match IoSpec.from_str_prefix_spec sg d s with Ok _ | Err _ => True | _ => False end.
+Proof. exact from_str_prefix_spec_np. Qed.
+Print Assumptions C16_int_prefix_parse_never_panics.
+
+(** (b) The series loops with rounding after every multiplication and division (magnitude enlarged by at most 1 + u), any
+    rounding of the additions: geometric decay with ratio |multiplier| (1 + u), and a fuel LINEAR in the precision
+    (fuel_prec B m = 1 + m * log2_up B for a threshold >= B^-m).  Cross/SeriesRounded.v. *)
+From Coq Require Import Qround.
+From Dashu Require Import Cross.SeriesRounded.
+Open Scope Z_scope.
+
+Theorem C16_iacoth_rounded_terminates : forall (eps : Q) (thr : Q -> Q) (u : Q) (rm rd ra : Q -> Q),
+  (forall s, (eps <= thr s)%Q) -> (0 <= u)%Q ->
+  (forall x, (Qabs (rm x) <= Qabs x * (1 + u))%Q) -> (forall x, (Qabs (rd x) <= Qabs x * (1 + u))%Q) ->
+  forall (M fuel : nat) (inv2 sum pow : Q) (k : Z), 1 <= k ->
+  (Qabs pow * qpow (Qabs inv2 * (1 + u)) (S M) * (1 + u) < eps)%Q -> (S M <= fuel)%nat ->
+  iacoth_loop_r thr rm rd ra fuel inv2 sum pow k <> None.
+Proof. intros eps thr u rm rd ra H1 H2 H3 H4 M. exact (iacoth_loop_r_terminates eps thr u rm rd ra H1 H2 H3 H4 M). Qed.
+Print Assumptions C16_iacoth_rounded_terminates.
+
+Theorem C16_ln_series_rounded_terminates : forall (eps : Q) (thr : Q -> Q) (u : Q) (rm rd ra : Q -> Q),
+  (forall s, (eps <= thr s)%Q) -> (0 <= u)%Q ->
+  (forall x, (Qabs (rm x) <= Qabs x * (1 + u))%Q) -> (forall x, (Qabs (rd x) <= Qabs x * (1 + u))%Q) ->
+  forall (M fuel : nat) (z2 sum pow : Q) (k : Z), 1 <= k ->
+  (Qabs pow * qpow (Qabs z2 * (1 + u)) (S M) * (1 + u) < eps)%Q -> (S M <= fuel)%nat ->
+  ln_series_loop_r thr rm rd ra fuel z2 sum pow k <> None.
+Proof. intros eps thr u rm rd ra H1 H2 H3 H4 M. exact (ln_series_loop_r_terminates eps thr u rm rd ra H1 H2 H3 H4 M). Qed.
+Print Assumptions C16_ln_series_rounded_terminates.
+
+Theorem C16_exp_series_rounded_terminates : forall (eps : Q) (thr : Q -> Q) (u : Q) (rm rd ra : Q -> Q),
+  (forall s, (eps <= thr s)%Q) -> (0 <= u)%Q ->
+  (forall x, (Qabs (rm x) <= Qabs x * (1 + u))%Q) -> (forall x, (Qabs (rd x) <= Qabs x * (1 + u))%Q) ->
+  forall (M fuel : nat) (r sum pow : Q) (factorial k : Z), 1 <= factorial -> 1 <= k ->
+  (Qabs pow * qpow (Qabs r * (1 + u)) (S M) * (1 + u) < eps)%Q -> (S M <= fuel)%nat ->
+  exp_series_loop_r thr rm rd ra fuel r sum pow factorial k <> None.
+Proof. intros eps thr u rm rd ra H1 H2 H3 H4 M. exact (exp_series_loop_r_terminates eps thr u rm rd ra H1 H2 H3 H4 M). Qed.
+Print Assumptions C16_exp_series_rounded_terminates.
+
+Theorem C16_iacoth_fuel_linear_in_precision : forall B m : Z, 2 <= B -> 0 <= m ->
+  forall (thr : Q -> Q) (u : Q) (rm rd ra : Q -> Q),
+  (forall s, (/ inject_Z (B ^ m) <= thr s)%Q) -> (0 <= u)%Q ->
+  (forall x, (Qabs (rm x) <= Qabs x * (1 + u))%Q) -> (forall x, (Qabs (rd x) <= Qabs x * (1 + u))%Q) ->
+  forall (n : Z) (fuel : nat),
+  (Qabs (rd (1 / inject_Z n)) * (1 + u) <= 1)%Q ->
+  (Qabs (rm (rd (1 / inject_Z n) * rd (1 / inject_Z n))) * (1 + u) <= 1 # 2)%Q ->
+  (fuel_prec B m <= fuel)%nat -> iacoth_r thr rm rd ra fuel n <> None.
+Proof. exact iacoth_r_fuel_prec. Qed.
+Print Assumptions C16_iacoth_fuel_linear_in_precision.
+
+Theorem C16_ln_series_fuel_linear_in_precision : forall B m : Z, 2 <= B -> 0 <= m ->
+  forall (thr : Q -> Q) (u : Q) (rm rd ra : Q -> Q),
+  (forall s, (/ inject_Z (B ^ m) <= thr s)%Q) -> (0 <= u)%Q ->
+  (forall x, (Qabs (rm x) <= Qabs x * (1 + u))%Q) -> (forall x, (Qabs (rd x) <= Qabs x * (1 + u))%Q) ->
+  forall (z : Q) (fuel : nat), (Qabs z * (1 + u) <= 1)%Q -> (Qabs (rm (z * z)) * (1 + u) <= 1 # 2)%Q ->
+  (fuel_prec B m <= fuel)%nat -> ln_series_r thr rm rd ra fuel z <> None.
+Proof. exact ln_series_r_fuel_prec. Qed.
+Print Assumptions C16_ln_series_fuel_linear_in_precision.
+
+Theorem C16_exp_series_fuel_linear_in_precision : forall B m : Z, 2 <= B -> 0 <= m ->
+  forall (thr : Q -> Q) (u : Q) (rm rd ra : Q -> Q),
+  (forall s, (/ inject_Z (B ^ m) <= thr s)%Q) -> (0 <= u)%Q ->
+  (forall x, (Qabs (rm x) <= Qabs x * (1 + u))%Q) -> (forall x, (Qabs (rd x) <= Qabs x * (1 + u))%Q) ->
+  forall (no_scaling : bool) (r : Q) (fuel : nat), (Qabs r * (1 + u) <= 1 # 2)%Q ->
+  (fuel_prec B m <= fuel)%nat -> exp_series_r thr rm rd ra fuel no_scaling r <> None.
+Proof. exact exp_series_r_fuel_prec. Qed.
+Print Assumptions C16_exp_series_fuel_linear_in_precision.
+
+(** the argument reductions deliver the small multipliers the series need *)
+Theorem C16_ln_reduction_scaled : forall x : Q, (1 <= x)%Q -> (x < 2)%Q -> (0 <= (x - 1) / (x + 1))%Q /\ ((x - 1) / (x + 1) <= 1 # 3)%Q.
+Proof. exact ln_reduction_scaled. Qed.
+Print Assumptions C16_ln_reduction_scaled.
+
+Theorem C16_ln_reduction_unscaled : forall x : Q, (Qabs x <= 1 # 2)%Q -> (Qabs (x / (x + 2)) <= 1 # 3)%Q.
+Proof. exact ln_reduction_unscaled. Qed.
+Print Assumptions C16_ln_reduction_unscaled.
+
+Theorem C16_exp_reduction : forall (x L : Q) (B : Z) (n : nat), (0 < L)%Q -> (2 * L <= inject_Z B)%Q -> (1 <= n)%nat -> 2 <= B ->
+  let s := Qfloor (x / L) in
+  let r := ((x - inject_Z s * L) / inject_Z (B ^ Z.of_nat n))%Q in
+  (0 <= r)%Q /\ (r <= 1 # 2)%Q.
+Proof. exact exp_reduction. Qed.
+Print Assumptions C16_exp_reduction.
+
+(** every argument of iacoth in float/src/log.rs (regenerated) is >= 4, for which the start values satisfy the premises of
+    C16_iacoth_fuel_linear_in_precision at every precision >= 2 (u <= 1/2) *)
+Theorem C16_iacoth_arguments : Forall (fun n => 4 <= n) ParseSites.gen_iacoth_args.
+Proof. exact gen_iacoth_args_ge_4. Qed.
+Print Assumptions C16_iacoth_arguments.
+
+Theorem C16_iacoth_start_small : forall (u : Q) (rm rd : Q -> Q) (n : Z), (0 <= u)%Q -> (u <= 1 # 2)%Q ->
+  (forall x, (Qabs (rm x) <= Qabs x * (1 + u))%Q) -> (forall x, (Qabs (rd x) <= Qabs x * (1 + u))%Q) -> 4 <= n ->
+  (Qabs (rd (1 / inject_Z n)) * (1 + u) <= 1)%Q /\
+  (Qabs (rm (rd (1 / inject_Z n) * rd (1 / inject_Z n))) * (1 + u) <= 1 # 2)%Q.
+Proof. exact iacoth_start_small. Qed.
+Print Assumptions C16_iacoth_start_small.
+
+(** (c) D&C radix conversion (C07, printing side; the parsing side is C16_parse_body_total above): the printer's recursion
+    over the table of radix powers returns the digits of the specification for every value and word size *)
+Theorem C16_print_digits_total : forall w r x, 0 < w -> w mod 2 = 0 -> 2 <= r -> r < IoModel.Bw w -> 0 <= x ->
+  IoModel.digits_asis w r x = IoSpec.digits_spec r x.
+Proof. exact IoPow2.digits_asis_correct. Qed.
+Print Assumptions C16_print_digits_total.
+
+(** (d) Allocation: result sizes that are not linear in the input size (Cross/AllocBounds.v) *)
+From Dashu Require Import Cross.AllocBounds.
+Theorem C16_alloc_shl_bits : forall a n, 0 < a -> 0 <= n -> bits (a * 2 ^ n) = bits a + n.
+Proof. exact shl_bits. Qed.
+Print Assumptions C16_alloc_shl_bits.
+
+Theorem C16_alloc_mul_linear : forall a b, 0 < a -> 0 < b -> bits (a * b) <= bits a + bits b.
+Proof. exact mul_bits. Qed.
+Print Assumptions C16_alloc_mul_linear.
+
+Theorem C16_alloc_pow_bits : forall a n, 2 <= a -> 0 <= n -> n * (bits a - 1) + 1 <= bits (a ^ n) <= n * bits a + 1.
+Proof. intros a n Ha Hn. split; [apply pow_bits_lower | apply pow_bits_upper]; lia. Qed.
+Print Assumptions C16_alloc_pow_bits.
+
+Theorem C16_alloc_to_int_bits : forall s B e, 0 < s -> 2 <= B -> 0 <= e -> bits (s * B ^ e) <= bits s + e * bits B + 1.
+Proof. exact to_int_bits. Qed.
+Print Assumptions C16_alloc_to_int_bits.
+
+Theorem C16_alloc_shl_not_linear : forall c, 0 < c -> exists a n, 0 < a /\ 0 <= n /\ c * (bits a + bits n) < bits (a * 2 ^ n).
+Proof. exact shl_not_linear. Qed.
+Print Assumptions C16_alloc_shl_not_linear.
+
+(** the index-slice expressions present in the parser sources are exactly the modelled ones (regenerated list) *)
+From Coq Require Import String.
+Theorem C16_slice_sites_modelled :
+  ParseSites.gen_float_slices = ["src[pos + 1..]"; "src[..pos]"; "src[..dot]"; "int_str[2..]"; "src[..dot]"; "src[dot + 1..]"; "src[2..]"]%string /\
+  ParseSites.gen_ratio_slices = ["src[..slash]"; "src[slash + 1..]"; "src[..slash]"; "src[slash + 1..]"]%string /\
+  ParseSites.gen_int_slices = []%string.
+Proof. exact (conj gen_float_slices_modelled (conj gen_ratio_slices_modelled gen_int_slices_modelled)). Qed.
+Print Assumptions C16_slice_sites_modelled.
